@@ -10,8 +10,13 @@ use crate::dev::{new_dev, Base, DevState};
 use crate::sess::Cfg;
 
 pub fn format_image(total_sectors: u32, bps: u16, opts: FormatVolumeOptions, tail: u64) -> Result<Vec<u8>, String> {
+    format_image_over(total_sectors, bps, opts, tail, 0)
+}
+
+/// format over a medium whose every byte is `fill` (a used medium: whatever formatting must initialise but does not shows)
+pub fn format_image_over(total_sectors: u32, bps: u16, opts: FormatVolumeOptions, tail: u64, fill: u8) -> Result<Vec<u8>, String> {
     let len = total_sectors as u64 * bps as u64 + tail;
-    let base = Arc::new(Base::Bytes(vec![0u8; len as usize]));
+    let base = Arc::new(Base::Bytes(vec![fill; len as usize]));
     let (st, mut dev) = new_dev(&base);
     let opts = opts.bytes_per_sector(bps).total_sectors(total_sectors);
     fatfs::format_volume(&mut dev, opts).map_err(|e| format!("format failed: {e:?}"))?;
@@ -160,6 +165,11 @@ pub fn build(spec: &VolSpec) -> Result<(Vec<u8>, Option<Vec<u32>>), String> {
 
 /// like `build`, with further format options (media byte, label, ...) applied on top of the geometry
 pub fn build_with(spec: &VolSpec, extra: &dyn Fn(FormatVolumeOptions) -> FormatVolumeOptions) -> Result<(Vec<u8>, Option<Vec<u32>>), String> {
+    build_over(spec, extra, 0)
+}
+
+/// like `build_with`, formatted over a medium filled with `fill`
+pub fn build_over(spec: &VolSpec, extra: &dyn Fn(FormatVolumeOptions) -> FormatVolumeOptions, fill: u8) -> Result<(Vec<u8>, Option<Vec<u32>>), String> {
     let mk = || {
         extra(
             FormatVolumeOptions::new()
@@ -190,7 +200,7 @@ pub fn build_with(spec: &VolSpec, extra: &dyn Fn(FormatVolumeOptions) -> FormatV
         }
     }
     let total = total.ok_or_else(|| format!("no total sector count gives {want} clusters for {}", spec.name))?;
-    let mut img = format_image(total, spec.bps, mk(), spec.tail)?;
+    let mut img = format_image_over(total, spec.bps, mk(), spec.tail, fill)?;
     let g = geo_of(&img);
     if spec.tail > 0 {
         let end = g.volume_end() as usize;
